@@ -191,7 +191,8 @@ func (e entry) line(val string) string {
 // render produces the text of one .lfsconfig from the entries of a slot.
 func render(entries []entry, s subst, noise int64) string {
 	if len(entries) == 0 {
-		return ""
+		// not the empty file: an empty blob is what git-lfs takes for the pointer of an empty object
+		return "# no entries\n"
 	}
 	r := rand.New(rand.NewSource(noise))
 	var sb strings.Builder
@@ -336,14 +337,27 @@ func (g *generator) genCase(i int) kase {
 	case "single":
 		ord := i/20*10 + i%20 // ordinal among single cases
 		t := unsafeTemplates[g.perm[ord%len(unsafeTemplates)]]
+		if t.Pref != "" && r.Intn(4) != 0 {
+			switch t.Pref {
+			case "auth-nocreds":
+				c.Variant, c.Creds = "origin-auth", false
+			case "auth":
+				c.Variant = "origin-auth"
+			case "ssh":
+				c.Variant = "ssh-origin"
+			case "two":
+				c.Variant = "origin+other"
+			case "dotted":
+				c.Variant = []string{"origin+dotted", "dotted-only"}[r.Intn(2)]
+			}
+		}
 		add(t, slot)
 		c.KnownFamily = t.Known
-		if r.Intn(8) == 0 { // the same unsafe key twice
+		if r.Intn(8) == 0 { // the same unsafe key twice (other spelling, possibly other value)
 			e := g.mkEntry(r, t, idx, slot)
-			if e.K == c.Entries[0].K || t.Known == "" {
-				idx++
-				c.Entries = append(c.Entries, e)
-			}
+			e.K = c.Entries[0].K
+			idx++
+			c.Entries = append(c.Entries, e)
 		}
 		addAllowed(nAllowed())
 	case "mixture":
@@ -392,6 +406,23 @@ func (g *generator) genCase(i int) kase {
 	// user's own git configuration may also carry keys that are unsafe in .lfsconfig: legitimate there
 	if c.Kind != "precedence" && r.Intn(8) == 0 {
 		c.GitCfg = append(c.GitCfg, gentry{Scope: "local", K: ckey{Sec: "lfs", Key: "concurrenttransfers"}, Val: "2"})
+	}
+	// a remote name with a dot in it makes a 4-part key: that is the (separately recorded) dotted-name family
+	vi := variants[c.Variant]
+	for j := range c.Entries {
+		e := &c.Entries[j]
+		if e.K.Sec != "remote" || !e.K.HasSub || e.Allowed {
+			continue
+		}
+		sub := strings.NewReplacer("@R1@", vi.R1, "@R2@", vi.R2).Replace(e.K.Sub)
+		if !strings.Contains(sub, ".") {
+			continue
+		}
+		if c.KnownFamily == "" || c.KnownFamily == "remote-dotted" {
+			e.Name, e.Known, c.KnownFamily = "remote.<dotted-name>.<non-lfsurl>", "remote-dotted", "remote-dotted"
+		} else {
+			e.K.Sub = "evil"
+		}
 	}
 	r.Shuffle(len(c.Entries), func(a, b int) { c.Entries[a], c.Entries[b] = c.Entries[b], c.Entries[a] })
 	// duplicates of an allow-listed key: the last one wins in both twins
